@@ -294,3 +294,16 @@ contract(f"{SA}._setup_config", scenarios=[("config_object.", setup_sa_cfg("conf
     ensures={"key_is_PRNGKey_of_seed": lambda c, q: c.self.attrs["key"] == c.I.rand["KEY0"](c.seed),
              "seed_is_in_the_config": lambda c, q: toz3(c.self.attrs["config"].attrs["random_seed"]) == c.seed})
 from pyvc.contract import LoopSpec
+
+
+# ---------------- _initialize_solver_state_elements (override of the base initialisation: same postcondition + no batch order yet)
+from contracts.value_iteration import prepared
+def setup_sa_init(I):
+    s, Pb, dims, gamma = mk_solver(I, *SACLS)
+    I.call(I.getattr(s, "_setup_jax_functions"), [], {})
+    s.attrs["batched_states"] = prepared(Pb, dims)
+    return Ctx(self=s, _args=[])
+contract(f"{SA}._initialize_solver_state_elements", setup=setup_sa_init, modifies={"values", "policy", "iteration", "batch_order", "inverse_order"},
+    ensures={"iteration_zero_values_initial_policy_none": lambda c, q: z3.And(toz3(c.self.attrs["iteration"]) == 0, z3.BoolVal(c.self.attrs["policy"] is None),
+                 q.forall(0, N, lambda x: toz3(c.self.attrs["values"].get((x,))) == INITV(ST(x)))),
+             "no_batch_order_before_the_first_sweep": lambda c, q: z3.BoolVal(c.self.attrs["batch_order"] is None and c.self.attrs["inverse_order"] is None)})
